@@ -267,7 +267,7 @@ def scale_case(c, k):
     d["capital"] = hx(float.fromhex(c["capital"]) * k)
 
     def walk_algo(a):
-        if a[0] == "capitalflow":
+        if a[0] in ("capitalflow", "useradjust"):
             a[1] = hx(float.fromhex(a[1]) * k)
         for x in a[1:]:
             if isinstance(x, list) and x and isinstance(x[0], str):
